@@ -295,6 +295,7 @@ class Report:
         self.known_hits = {}       # finding id -> count
         self.kf = [k for k in load_known_findings().get("known", []) if k.get("property") == prop]
         self.n = 0
+        self.notes = []
         d = os.path.join(REPLAYS, prop)
         if os.path.isdir(d):     # replay files of an earlier run with the same tier/seed are stale
             for f in os.listdir(d):
@@ -325,7 +326,23 @@ class Report:
                        "observed": observed}, f, indent=1)
         self.violations.append((what, path))
 
+    def note(self, what):
+        """something the specification did not expect but that no property forbids (e.g. the internal state shown by a hook differs
+        from the implementation-shaped model while every result is as required): recorded, never an alarm"""
+        self.notes.append(what)
+        if len(self.notes) <= 5:
+            log("NOTE (no violation): " + what[:400])
+
     def finish(self):
+        if self.notes:
+            try:
+                evp = os.path.join(EVID, f"{self.prop}.json")
+                ev = json.load(open(evp))
+                ev["coverage"]["hook_drift_notes"] = self.notes[:20]
+                ev["coverage"]["hook_drift_count"] = len(self.notes)
+                json.dump(ev, open(evp, "w"), indent=1)
+            except Exception:
+                pass
         for k in self.kf:
             if self.known_hits.get(k["id"]):
                 print(f"KNOWN-FINDING: property={self.prop} {k['id']}: {k['what']} (hit {self.known_hits[k['id']]}x)")
